@@ -5,6 +5,7 @@ from ._floorprop import FloorProp
 class C02(FloorProp):
     id = 'C02'
     profile = 'c02'
+    crash_every = 6
     design_ref = 'DESIGN.md section 4 / C02'
     budgets = {'quick': 6000, 'thorough': 200000}
     level_text = ('Seeded search over random factory models (layered DAGs with fan-in/out, gates, shared, re-entrant and '
